@@ -189,6 +189,15 @@ func (d *dom[E]) codec(wrap func(E) interface{}) string {
 // strings with quotes, backslashes, non-ASCII, JSON-looking text, text that is a key elsewhere, HTML-escaped characters
 var strPool = []string{"", "a", "b", "c", "ab", "a\"b", "\\", "a\\b", "é", "日本", "a b", "1", "10", "\"a\"", "{\"a\":1}", "<x>", "a\n", "null", "true"}
 
+// hostile characters: every C0 control (NUL, BEL, VT, ESC, ... - only \b \f \n \r \t have short JSON escapes), DEL, C1 NEL,
+// the line / paragraph separators encoding/json escapes, the replacement character itself, non-printable and last astral code points.
+// All valid UTF-8: encoding/json replaces invalid bytes by U+FFFD, so such strings cannot round-trip through ANY JSON encoder and are
+// outside the property's reach (said in the level note).
+var hostilePool = []string{"\x00", "\x1b[31mred\x1b[0m", "\a", "\v", "\x7f", "a\x01\x02\x03b", "\x04\x05\x06", "\b\t\n\f\r", "\x0e\x0f\x10\x11",
+	"\x12\x13\x14\x15", "\x16\x17\x18\x19", "\x1a\x1c\x1d\x1e\x1f", "\u0085", "\u2028", "a\u2029b", "\ufffd", "\U000e0001", "\U0010ffff", "x\x00y", "\x7f\x1b"}
+
+func init() { strPool = append(strPool, hostilePool...) }
+
 func intDom(rng *vhlib.Rng, u int, nozero bool) *dom[int] {
 	var univ []int
 	switch rng.Intn(3) {
